@@ -11,8 +11,8 @@ use crate::keys::NetworkCrypto;
 /// recording crypto (A-crypto): a user-supplied Crypto implementation, so no stubbing is needed and the
 /// native replay runs exactly the same code
 pub(crate) struct RecCrypto;
-pub(crate) struct CryptoLog { pub enc_calls: u8, pub dec_calls: u8, pub mic_calls: u8, pub blocks_in: [[u8; 16]; 4], pub blocks_out: [[u8; 16]; 4], pub mic_b0_len: usize, pub mic_data: [u8; 40], pub mic_data_len: usize, pub mic_ret: [u8; 4], pub bad: bool }
-pub(crate) static mut LOG: CryptoLog = CryptoLog { enc_calls: 0, dec_calls: 0, mic_calls: 0, blocks_in: [[0; 16]; 4], blocks_out: [[0; 16]; 4], mic_b0_len: 0, mic_data: [0; 40], mic_data_len: 0, mic_ret: [0; 4], bad: false };
+pub(crate) struct CryptoLog { pub enc_calls: u8, pub dec_calls: u8, pub mic_calls: u8, pub blocks_in: [[u8; 16]; 4], pub blocks_out: [[u8; 16]; 4], pub mic_b0_len: usize, pub mic_b0: [u8; 16], pub mic_data: [u8; 40], pub mic_data_len: usize, pub mic_ret: [u8; 4], pub bad: bool }
+pub(crate) static mut LOG: CryptoLog = CryptoLog { enc_calls: 0, dec_calls: 0, mic_calls: 0, blocks_in: [[0; 16]; 4], blocks_out: [[0; 16]; 4], mic_b0_len: 0, mic_b0: [0; 16], mic_data: [0; 40], mic_data_len: 0, mic_ret: [0; 4], bad: false };
 fn rec_block(block: &mut [u8]) {
     unsafe {
         let k = (LOG.enc_calls + LOG.dec_calls) as usize;
@@ -27,6 +27,7 @@ impl Crypto for RecCrypto {
     fn calculate_mic(&self, b0: &[u8], data: &[u8]) -> [u8; 4] {
         unsafe {
             LOG.mic_calls += 1; LOG.mic_b0_len = b0.len(); LOG.mic_data_len = data.len();
+            let mut j = 0; while j < 16 { if j < b0.len() { LOG.mic_b0[j] = b0[j]; } j += 1; }
             let mut i = 0; while i < 40 { if i < data.len() { LOG.mic_data[i] = data[i]; } i += 1; }
             LOG.mic_ret
         }
@@ -91,7 +92,7 @@ fn join_accept_build(cflist: usize) {
         }
         k += 1;
     }
-    kani::cover!(true, "verif-reached: built");
+    kani::cover!(true, "verif-maybe: built");
 }
 // @verif props=C01 obligation=JoinAccept::build_into.contract[no CFList] label=proved-complete tier=quick unit=JoinAccept::build_into
 #[kani::proof]
@@ -232,3 +233,150 @@ fn c19_wire_newtypes() {
     assert!(*p.as_wire_bytes() == raw && <[u8; 8]>::from(back) == raw, "C19 keys::DevEui <-> parser::DevEui");
     kani::cover!(true, "verif-reached: end");
 }
+
+// ================================================================================================ Kani twins of the Verus units (C01 / C02)
+// Same contracts as contracts/verus/codec.vt, stated over the recording crypto and checked bit-precisely for a set of concrete
+// lengths with symbolic content.  They decide (with a replayable input) when a Verus obligation stops verifying, and they are
+// what still speaks when an edit makes the spliced proof text stale.
+use crate::creator::{DataFrame, Payload};
+use core::num::NonZeroU8;
+
+fn twin_build(nfopts: usize, plen: usize, port_kind: usize) {
+    tape::init();
+    kani::cover!(true, "verif-reached: harness entered");
+    let ft = [DataFrameType::UnconfirmedUp, DataFrameType::UnconfirmedDown, DataFrameType::ConfirmedUp, DataFrameType::ConfirmedDown][tape::below(4)];
+    let addr: [u8; 4] = tape::arr();
+    let (adr, adr_ack_req, ack, f_pending) = (tape::boolean(), tape::boolean(), tape::boolean(), tape::boolean());
+    let fcnt = tape::u32();
+    let fopts: [u8; 15] = tape::arr();
+    let data: [u8; 34] = tape::arr();
+    let port = tape::u8();
+    kani::assume(port != 0);
+    let mic: [u8; 4] = tape::arr();
+    unsafe { LOG.mic_ret = mic; }
+    let payload = match port_kind { 0 => Payload::None, 1 => Payload::Data { f_port: NonZeroU8::new(port).unwrap(), data: &data[..plen] }, _ => Payload::MacCommands(&data[..plen]) };
+    let d = DataFrame { frame_type: ft, dev_addr: DevAddr::from_wire_bytes(addr), adr, adr_ack_req, ack, f_pending, fcnt, f_opts: &fopts[..nfopts], payload };
+    let mut buf = [0u8; 64];
+    let nwk = RecCrypto; let app = RecCrypto;
+    let r = d.build_into(&mut buf, &nwk, Some(&app));
+    let g = unsafe { &*(&raw const LOG) };
+    if port_kind == 2 && nfopts > 0 { assert!(matches!(r, Err(Error::FOptsWithFPortZero)), "C01 FOpts together with port 0 is refused"); kani::cover!(true, "verif-maybe: refused"); return; }
+    let out = r.unwrap();
+    let up = matches!(ft, DataFrameType::UnconfirmedUp | DataFrameType::ConfirmedUp);
+    let mtype = match ft { DataFrameType::UnconfirmedUp => 2u8, DataFrameType::UnconfirmedDown => 3, DataFrameType::ConfirmedUp => 4, DataFrameType::ConfirmedDown => 5 };
+    let has_port = port_kind != 0;
+    let total = 8 + nfopts + has_port as usize + (if has_port { plen } else { 0 }) + 4;
+    assert!(out.len() == total, "C01 frame length");
+    assert!(out[0] == mtype << 5 && out[1..5] == addr, "C01 MHDR / DevAddr");
+    let fctrl = (nfopts as u8) | ((adr as u8) << 7) | (((adr_ack_req && up) as u8) << 6) | ((ack as u8) << 5) | (((f_pending && !up) as u8) << 4);
+    assert!(out[5] == fctrl && out[6] == fcnt as u8 && out[7] == (fcnt >> 8) as u8, "C01 FCtrl / FCnt low half little-endian");
+    let mut i = 0; while i < 15 { if i < nfopts { assert!(out[8 + i] == fopts[i], "C01 FOpts in clear"); } i += 1; }
+    let dirb = if up { 0u8 } else { 1 };
+    let fb = fcnt.to_le_bytes();
+    if has_port {
+        let st = 8 + nfopts;
+        assert!(out[st] == (if port_kind == 1 { port } else { 0 }), "C01 FPort");
+        let nblk = (plen + 15) / 16;
+        assert!(!g.bad && g.enc_calls as usize == nblk, "C01 one key-stream block per 16 payload bytes");
+        let mut k = 0;
+        while k < 3 {
+            if k < nblk {
+                let a = g.blocks_in[k];
+                assert!(a[0] == 1 && a[1..5] == [0u8; 4] && a[5] == dirb && a[6..10] == addr && a[10..14] == fb && a[14] == 0 && a[15] == k as u8 + 1,
+                    "C01 A_i = 01 | 0^4 | Dir | DevAddr | FCnt (32 bit) | 00 | i  -- each block from its OWN A_i");
+            }
+            k += 1;
+        }
+        let mut j = 0;
+        while j < 34 { if j < plen { assert!(out[st + 1 + j] == data[j] ^ g.blocks_out[j / 16][j % 16], "C01 FRMPayload = plaintext xor key stream"); } j += 1; }
+    } else {
+        assert!(g.enc_calls == 0, "no key stream without FRMPayload");
+    }
+    let b0 = g.mic_b0;
+    assert!(g.mic_calls == 1 && g.mic_b0_len == 16 && b0[0] == 0x49 && b0[5] == dirb && b0[6..10] == addr && b0[10..14] == fb && b0[15] as usize == total - 4 && g.mic_data_len == total - 4,
+        "C01 MIC over B0 | msg with the full 32-bit counter and the direction bit");
+    assert!(out[total - 4..] == mic, "C01 MIC appended");
+    kani::cover!(true, "verif-maybe: built");
+}
+// @verif props=C01 obligation=DataFrame::build_into.twin[fopts=0,payload=0,kind=0] label=bounded(lengths) tier=quick unit=DataFrame::build_into bound="FOpts 0 bytes, FRMPayload 0 bytes (content, header fields, counter, keys' outputs symbolic)"
+#[kani::proof]
+#[kani::unwind(66)]
+fn c01_twin_build_f0_p0_k0() { twin_build(0, 0, 0) }
+// @verif props=C01 obligation=DataFrame::build_into.twin[fopts=2,payload=5,kind=1] label=bounded(lengths) tier=quick unit=DataFrame::build_into bound="FOpts 2 bytes, FRMPayload 5 bytes (content, header fields, counter, keys' outputs symbolic)"
+#[kani::proof]
+#[kani::unwind(66)]
+fn c01_twin_build_f2_p5_k1() { twin_build(2, 5, 1) }
+// @verif props=C01 obligation=DataFrame::build_into.twin[fopts=0,payload=17,kind=1] label=bounded(lengths) tier=quick unit=DataFrame::build_into bound="FOpts 0 bytes, FRMPayload 17 bytes (content, header fields, counter, keys' outputs symbolic)"
+#[kani::proof]
+#[kani::unwind(66)]
+fn c01_twin_build_f0_p17_k1() { twin_build(0, 17, 1) }
+// @verif props=C01 obligation=DataFrame::build_into.twin[fopts=15,payload=33,kind=1] label=bounded(lengths) tier=quick unit=DataFrame::build_into bound="FOpts 15 bytes, FRMPayload 33 bytes (content, header fields, counter, keys' outputs symbolic)"
+#[kani::proof]
+#[kani::unwind(66)]
+fn c01_twin_build_f15_p33_k1() { twin_build(15, 33, 1) }
+// @verif props=C01 obligation=DataFrame::build_into.twin[fopts=0,payload=20,kind=2] label=bounded(lengths) tier=quick unit=DataFrame::build_into bound="FOpts 0 bytes, FRMPayload 20 bytes (content, header fields, counter, keys' outputs symbolic)"
+#[kani::proof]
+#[kani::unwind(66)]
+fn c01_twin_build_f0_p20_k2() { twin_build(0, 20, 2) }
+// @verif props=C01 obligation=DataFrame::build_into.twin[fopts=1,payload=3,kind=2] label=bounded(lengths) tier=quick unit=DataFrame::build_into bound="FOpts 1 bytes, FRMPayload 3 bytes (content, header fields, counter, keys' outputs symbolic)"
+#[kani::proof]
+#[kani::unwind(66)]
+fn c01_twin_build_f1_p3_k2() { twin_build(1, 3, 2) }
+
+fn twin_check_mic_decrypt(len: usize, fctrl: u8) {
+    tape::init();
+    kani::cover!(true, "verif-reached: harness entered");
+    // FCtrl (hence FOptsLen and every offset) is concrete per harness: symbolic offsets cost minutes of array reasoning
+    let bytes: [u8; 32] = { let mut b: [u8; 32] = tape::arr(); b[5] = fctrl; b };
+    let mut buf = bytes;
+    let fcnt = tape::u32();
+    let mic: [u8; 4] = tape::arr();
+    unsafe { LOG.mic_ret = mic; }
+    let have_app = tape::boolean();
+    let nwk = RecCrypto; let app = RecCrypto;
+    let r = DecryptedDataPayload::check_mic_and_decrypt_in_place(&mut buf[..len], &nwk, if have_app { Some(&app) } else { None }, fcnt);
+    let g = unsafe { &*(&raw const LOG) };
+    let wf = len >= 12 && (bytes[0] & 3) == 0 && (2..=5).contains(&(bytes[0] >> 5)) && 8 + (bytes[5] & 15) as usize <= len - 4;
+    if !wf { assert!(r.is_err() && g.mic_calls == 0 && g.enc_calls == 0 && buf == bytes, "C02 structurally invalid: refused, buffer untouched"); kani::cover!(true, "verif-maybe: not well-formed"); return; }
+    let b0 = g.mic_b0;
+    let fb = fcnt.to_le_bytes();
+    assert!(g.mic_calls == 1 && b0[0] == 0x49 && b0[5] == (bytes[0] >> 5) & 1 && b0[6..10] == bytes[1..5] && b0[10..14] == fb && b0[15] as usize == len - 4,
+        "C02 authenticity is judged for the GIVEN 32-bit counter and the frame's own direction");
+    let mic_ok = mic == [bytes[len - 4], bytes[len - 3], bytes[len - 2], bytes[len - 1]];
+    let h = 8 + (bytes[5] & 15) as usize;
+    let has_port = h < len - 4;
+    let fs = if has_port { h + 1 } else { h };
+    let plen = len - 4 - fs;
+    let needs_app = plen > 0 && has_port && bytes[h] != 0;
+    if !mic_ok || (needs_app && !have_app) {
+        assert!(r.is_err() && buf == bytes && g.enc_calls == 0, "C02 when checked decoding fails the buffer is byte-identical to what was received");
+        kani::cover!(true, "verif-maybe: rejected");
+        return;
+    }
+    assert!(r.is_ok(), "C02 authentic frame with the needed key is decoded");
+    // decrypted with (fcnt high half | wire low half)
+    let full = (fcnt & 0xFFFF_0000) | (bytes[6] as u32) | ((bytes[7] as u32) << 8);
+    let nblk = (plen + 15) / 16;
+    assert!(g.enc_calls as usize == nblk, "one key-stream block per 16 payload bytes");
+    let mut k = 0;
+    while k < 3 { if k < nblk { let a = g.blocks_in[k]; assert!(a[0] == 1 && a[5] == (bytes[0] >> 5) & 1 && a[6..10] == bytes[1..5] && a[10..14] == full.to_le_bytes() && a[15] == k as u8 + 1, "C02 A_i with the reconstructed counter"); } k += 1; }
+    let mut j = 0;
+    while j < 32 { if j < len { let want = if j >= fs && j < len - 4 { bytes[j] ^ g.blocks_out[(j - fs) / 16][(j - fs) % 16] } else { bytes[j] }; assert!(buf[j] == want, "C02 only FRMPayload is rewritten: plaintext = ciphertext xor key stream"); } j += 1; }
+    kani::cover!(true, "verif-maybe: accepted");
+}
+// @verif props=C02,C03 obligation=DecryptedDataPayload::check_mic_and_decrypt_in_place.twin[len=12,fctrl=0x00] label=bounded(lengths) tier=quick unit=DecryptedDataPayload::check_mic_and_decrypt_in_place bound="frame of 12 bytes with FCtrl 0x00; every other byte, the counter and the MIC outcome symbolic"
+#[kani::proof]
+#[kani::unwind(42)]
+fn c02_twin_check_mic_decrypt_12_00() { twin_check_mic_decrypt(12, 0x00) }
+// @verif props=C02,C03 obligation=DecryptedDataPayload::check_mic_and_decrypt_in_place.twin[len=13,fctrl=0x80] label=bounded(lengths) tier=quick unit=DecryptedDataPayload::check_mic_and_decrypt_in_place bound="frame of 13 bytes with FCtrl 0x80; every other byte, the counter and the MIC outcome symbolic"
+#[kani::proof]
+#[kani::unwind(42)]
+fn c02_twin_check_mic_decrypt_13_80() { twin_check_mic_decrypt(13, 0x80) }
+// @verif props=C02,C03 obligation=DecryptedDataPayload::check_mic_and_decrypt_in_place.twin[len=20,fctrl=0x03] label=bounded(lengths) tier=quick unit=DecryptedDataPayload::check_mic_and_decrypt_in_place bound="frame of 20 bytes with FCtrl 0x03; every other byte, the counter and the MIC outcome symbolic"
+#[kani::proof]
+#[kani::unwind(42)]
+fn c02_twin_check_mic_decrypt_20_03() { twin_check_mic_decrypt(20, 0x03) }
+// @verif props=C02,C03 obligation=DecryptedDataPayload::check_mic_and_decrypt_in_place.twin[len=30,fctrl=0x2f] label=bounded(lengths) tier=quick unit=DecryptedDataPayload::check_mic_and_decrypt_in_place bound="frame of 30 bytes with FCtrl 0x2f; every other byte, the counter and the MIC outcome symbolic"
+#[kani::proof]
+#[kani::unwind(42)]
+fn c02_twin_check_mic_decrypt_30_2f() { twin_check_mic_decrypt(30, 0x2f) }
